@@ -123,7 +123,7 @@ def find_slice(qualname):
     stmts = list(body[i0[0]: i1[0] + 1])
     if spec.get("result"):
         # the value of one local after the slice is the slice's result
-        stmts.append(ast.Return(value=ast.Name(id=spec["result"], ctx=ast.Load())))
+        stmts.append(ast.Return(value=ast.parse(spec["result"], mode="eval").body))   # a name or a tuple of names
     fn = ast.FunctionDef(name=base.node.name, args=ast.arguments(posonlyargs=[], args=[ast.arg(arg=a) for a in spec["params"]], kwonlyargs=[],
                                                                  kw_defaults=[], defaults=[]),
                          body=list(stmts), decorator_list=[], returns=None, type_comment=None)
